@@ -331,7 +331,7 @@ theorem findAll_local {endRe : Re} (hG : EndGuarded endRe) (tag : Text) (hnl : '
     by_cases hune : u = []
     · subst hune
       simp only [findTagInLine, Option.map_none, findAllWith_nil, List.nil_append]
-      simp [nextLine, findAllWith_nil]
+      simp [nextLine]
     · rw [findAllWith_step _ _ _ _ hune]
       cases hf : findTagInLine tag u with
       | none => simpa using hskip
